@@ -237,6 +237,10 @@ def run_c06(it):
                  lambda: dtw_ndim.distance_matrix(sn, block=blk, compact=True, **kw), compact)
         _compact(c, "c:dtw_ndim.distance_matrix_fast[serial]",
                  lambda: dtw_ndim.distance_matrix_fast(sn, block=blk, compact=True, parallel=False, **kw), compact)
+        # members in Fortran order: the C engine needs its own C-ordered copies
+        sf = [np().asfortranarray(x) for x in sn]
+        _compact(c, "c:dtw_ndim.distance_matrix_fast[F-ordered members]",
+                 lambda: dtw_ndim.distance_matrix_fast(sf, block=blk, compact=True, parallel=False, **kw), compact)
         if equal:
             cube = np().array(sn)
             _compact(c, "py:dtw_ndim.distance_matrix[3-D array]",
